@@ -17,6 +17,14 @@ Inductive litres :=
 (* result of re.compile(pattern).search(text) *)
 Inductive reres := RMatch (b : bool) | RError.
 
+(* nodes.py:648-651: the exception classes of literal_eval that typed_value
+   catches (ValueError and SyntaxError are LFail; MemoryError has no pycrash
+   name and cannot be shipped by the harness) *)
+Definition lit_crash_caught (c : pycrash) : bool :=
+  match c with TypeError | RecursionError | ValueError => true | _ => false end.
+
+Inductive hay := HVal (v : pyval) | HSBool (b : bool).
+
 Section Oracles.
 Variable lit : string -> outcome litres.
 Variable re_search : string -> string -> outcome reres.
@@ -39,9 +47,23 @@ Definition typed_value (value : pyval) : outcome pyval :=
           match r with
           | LVal v => Ok v
           | LFail => Ok value
-          | LCrash c => Raise (PyCrash c)
+          | LCrash c => if lit_crash_caught c then Ok value else Raise (PyCrash c)
           end
       end
+  end.
+
+(* A haystack as the operators receive it: any scalar, or ruamel.yaml's
+   ScalarBoolean -- the int subclass wrapping an anchored YAML boolean, which
+   pyval files under PInt but searches.py:42-44 tells apart
+   (isinstance(typed_haystack, ScalarBoolean) -> bool(typed_haystack)). *)
+Definition hay_pyval (h : hay) : pyval :=
+  match h with HVal v => v | HSBool b => PInt (Z_of_bool b) end.
+
+Definition typed_haystack (h : hay) : outcome pyval :=
+  do t <- typed_value (hay_pyval h);
+  match h with
+  | HSBool b => Ok (PBool b)
+  | HVal _ => Ok t
   end.
 
 Definition is_num_inst (v : pyval) : bool := is_int_inst v || is_float_inst v.
@@ -58,8 +80,8 @@ Definition ordered (cmp : pyval -> pyval -> outcome bool) (strcmp : string -> st
     if is_num_inst tn then cmp th tn else Ok false
   else Ok (strcmp (py_str th) needle).
 
-Definition search_matches (m : smethod) (needle : string) (haystack : pyval) : outcome bool :=
-  do th <- typed_value haystack;
+Definition search_matches_h (m : smethod) (needle : string) (haystack : hay) : outcome bool :=
+  do th <- typed_haystack haystack;
   do tn <- typed_value (PStr needle);
   match m with
   | MEquals =>
@@ -81,6 +103,9 @@ Definition search_matches (m : smethod) (needle : string) (haystack : pyval) : o
       | RError => Raise (PyCrash ReError)
       end
   end.
+
+Definition search_matches (m : smethod) (needle : string) (haystack : pyval) : outcome bool :=
+  search_matches_h m needle (HVal haystack).
 
 End Oracles.
 
